@@ -5,11 +5,8 @@ PROP = dict(
     family="txid", harness="txid", run_vo="Run/TxId.vo",
     theorems=["C03_table_closed", "C03_zeroed_is_malleable", "C03_strip_model", "C03_formula", "C03_malleable",
               "C03_malleable_field", "C03_malleable_field_model", "C03_binding_preimage", "C03_binding", "C03_cache",
-              "C03_nonvacuous"],
-    open_statements=[
-        "C03_binding_full_statement: `strip` preserves typed/wf (forall k v, wfv k v -> wfv k (strip k v)); C03_binding therefore carries the well-formedness "
-        "premise on the stripped transactions, not on the transactions themselves. Executed on every correspondence case (Run/TxId.v check_id), not proved.",
-    ],
+              "C03_nonvacuous", "C03_strip_preserves_wf", "C03_binding_full"],
+    open_statements=[],
     translators=["preparesign"],
     trusted_base=[
         SHA_NOTE,
@@ -25,7 +22,7 @@ PROP = dict(
     ],
     assumptions=[
         "C03_binding: explicit premise that the hash does not collide on the two preimages named in the statement (satisfiable: C03_nonvacuous uses an injective function); chain ids are u64",
-        "C03_binding: wfv (typed and wf, the hypothesis of the codec round-trip theorem C01) of the *stripped* transactions; wf excludes empty predicates / empty message data / policy values of unset bits "
+        "C03_binding_full: wfv (typed and wf, the hypothesis of the codec round-trip theorem C01) of the two transactions (C03_strip_preserves_wf carries it to the stripped forms); wf excludes empty predicates / empty message data / policy values of unset bits "
         "(the C01 findings F1-F3), where the encoding itself is not injective",
         "C03_strip_model / C03_formula: the value is typed (a value of the Rust type)",
         "a stale cache (mutating a precomputed transaction through the _mut accessors, or asking a precomputed transaction for its id under another chain id) is documented API behaviour "
@@ -43,7 +40,7 @@ PROP = dict(
                 "to the specification's set per kind (by name); replacing the value at any malleable path in any element by anything leaves the id unchanged (generic induction over the schema universe, "
                 "no hash assumption); different chain id or different non-malleable content gives different preimages (encoder injectivity from the codec round trip) hence different ids under an explicit "
                 "collision-freeness premise; the cached id equals the fresh one."),
-    level_note=("11 theorems proved, Closed under the global context. Open: strip preserves well-formedness (C03_binding carries the premise on the stripped values). The caching half rests on the translator's "
+    level_note=("13 theorems proved, Closed under the global context, nothing open. The caching half rests on the translator's "
                 "shape checks of precompute/cached_id/CommonMetadata::compute (pattern match on the source text) plus the correspondence run."),
     technique="Coq proof (table interpreter = path-set specification; generic schema induction for malleability; encoder injectivity) + translator prepare_sign -> table + differential model/impl run + schema-driven mutation oracle",
     design_ref="6/C03",
